@@ -26,20 +26,49 @@ from .core import Ctx, MachineryError
 GRANT_TIMEOUT = 0.05
 
 
+_initial = {}
+
+
 def _store_cls():
     from AEIC.trajectories.store import TrajectoryStore
 
+    if not _initial:
+        # the data attributes of the class as they are when the module has just been imported: "a fresh process"
+        for k, v in vars(TrajectoryStore).items():
+            if not k.startswith('__') and not callable(v) and not isinstance(v, (staticmethod, classmethod, property)):
+                _initial[k] = v
+        _initial['__snap__'] = True
     return TrajectoryStore
 
 
 def _reset_guard():
+    """Put the class back into the state of a process that has not created a store yet: the owner record and
+    whatever else the guard keeps on the class (e.g. a lock object created on first use)."""
     TS = _store_cls()
+    for k, v in _initial.items():
+        if k != '__snap__' and vars(TS).get(k, v) is not v:
+            setattr(TS, k, v)
     if hasattr(TS, 'active_in_thread'):
         TS.active_in_thread = None
     # an owner record that ended up on a subclass (shadowing the class attribute) is removed too
     sub = getattr(globals().get('_constructor'), 'sub', None)
     if sub is not None and 'active_in_thread' in vars(sub):
         delattr(sub, 'active_in_thread')
+
+
+def in_guard_code(frame, code) -> bool:
+    """Is this frame the constructor, or a function of the same source file called (directly or indirectly) from
+    it - a helper the guard was factored into?"""
+    if frame.f_code is code:
+        return True
+    if frame.f_code.co_filename != code.co_filename:
+        return False
+    f, depth = frame.f_back, 0
+    while f is not None and depth < 8:
+        if f.f_code is code:
+            return True
+        f, depth = f.f_back, depth + 1
+    return False
 
 
 class LineScheduler:
@@ -69,7 +98,7 @@ class LineScheduler:
         local = self._local(tid)
 
         def tracer(frame, event, arg):
-            if event == 'call' and frame.f_code is self.code and self.count[tid] < self.region:
+            if event == 'call' and in_guard_code(frame, self.code) and self.count[tid] < self.region:
                 return local
             return None
 
@@ -156,6 +185,21 @@ class LineScheduler:
         return results, list(self.events), applied, blocked
 
 
+def _sched_job(job):
+    """One schedule on two real threads (in a worker process: the owner record is per process)."""
+    sch, n = job
+    try:
+        _reset_guard()
+        ls = LineScheduler(_store_cls().__init__.__code__, n)
+        return ls.run(sch, body)
+    except Exception as e:
+        import traceback
+
+        return f'{type(e).__name__}: {e}\n{traceback.format_exc()}'
+    finally:
+        _reset_guard()
+
+
 def discover_region() -> int:
     """Number of line events of TrajectoryStore.__init__ up to (and one past)
     the point where the guard has recorded the calling thread, measured on a
@@ -174,7 +218,7 @@ def discover_region() -> int:
         return local
 
     def glob(frame, event, arg):
-        if event == 'call' and frame.f_code is code:
+        if event == 'call' and in_guard_code(frame, code):
             return local
         return None
 
@@ -304,7 +348,7 @@ def run_script(script, tmp) -> list[dict]:
 
 def run(ctx: Ctx):
     ctx.rule = (
-        'schedules = all interleavings (TLC-enumerated) of the N guard-region line events of two threads each '
+        'schedules = all interleavings (TLC-enumerated) of the first N (5 quick / 8 thorough) guard-region line events of two threads each, and every schedule with at most two preemptions over the whole region (helper functions of the same file included), '
         'constructing a first store, N discovered by a solo dry run; plus sequential scripts over {create in memory, create file-backed, create through a subclass, close, 3 kinds of failing constructor} x 2 threads: '
         'every StoreGuard behaviour of length 3 (4 thorough), random walks of length 7, 5 hand-written orders; '
         'non-trivial = schedule in which both threads are inside the guard region at the same time'
@@ -327,18 +371,25 @@ def run(ctx: Ctx):
     else:
         n = discover_region()
         ctx.extra['guard_region_line_events'] = n
-        nn = min(n, 5 if ctx.quick else 7)
+        nn = min(n, 5 if ctx.quick else 8)
         gen = tlc.check(ctx, 'guard/GuardSched', 'guard/GuardSched.cfg', sub={'N = 3': f'N = {nn}'}, workers=4)
         schedules = gen['emitted']
+        # the whole region (however long helper functions make it) under every schedule with at most two preemptions
+        pre = tlc.check(ctx, 'guard/GuardSched', 'guard/GuardSchedPre.cfg', sub={'N = 3': f'N = {n + 2}'}, workers=1)['emitted']
+        seen_s = {tuple(x) for x in schedules}
+        schedules += [x for x in pre if tuple(x) not in seen_s]
         ctx.exhaustive = nn == n
     TS = _store_cls()
     code = TS.__init__.__code__
     traces = []
     sched_of = {}
-    for i, sch in enumerate(schedules):
-        _reset_guard()
-        ls = LineScheduler(code, n)
-        results, events, applied, blocked = ls.run(sch, body)
+    from .store_replay import pmap as _pmap
+
+    outs = _pmap(_sched_job, [(sch, n) for sch in schedules])
+    for i, (sch, out) in enumerate(zip(schedules, outs)):
+        if isinstance(out, str):
+            raise MachineryError('line scheduler worker failed: ' + out)
+        results, events, applied, blocked = out
         name = f'sched-{i}'
         traces.append({'t': name, 'ev': events})
         sched_of[name] = {'schedule': sch, 'applied': applied, 'results': results, 'blocked_grants': blocked, 'region': n}
